@@ -15,6 +15,7 @@ RULE = ("Hypothesis-generated force fields (1-3 blocks, .ff and polyply .itp syn
 ASSUMPTIONS = ["the independent .itp reader in pbt/itp.py", "vermouth 0.15.0 / networkx 3.6.1 as installed",
                "inter-residue connections that are only angles/dihedrals are not expected to be "
                "recovered as residue-graph edges (an .itp carries edges through bonds/constraints)"]
+RULE += (' The interaction lines of the molecule as it stands after links and modifications (captured) must equal the lines handed to the writer.')
 BUDGET = {"quick": (16, 150), "thorough": (16, 4000)}
 
 
